@@ -29,7 +29,7 @@ def steps_for(cfg, name, kind):
     return [[['add_fp', {'content': 'c2049', 'udf_path': '/' + name}]], [['add_fp', {'content': 'c1', 'udf_path': '/zz'}]]]
 
 
-ORACLES = [oracles.oracle_udf, master.oracle_roundtrip]
+SWEEP_ORACLES = [oracles.oracle_udf, master.oracle_roundtrip]
 
 
 def extra_tasks(tier):
@@ -41,7 +41,7 @@ def extra_tasks(tier):
 def run_one(cfg, name, kind, res=None):
     case = {'extra': True, 'cfg': cfg, 'steps': steps_for(cfg, name, kind)}
     try:
-        status, viols, info = master.evaluate(case, ORACLES, res)
+        status, viols, info = master.evaluate(case, SWEEP_ORACLES, res)
     except Exception:
         # the reference model refuses (e.g. identifier longer than 254 bytes): the implementation must refuse as well
         impl, info2 = explore.run_history(cfg, case['steps'][:1])
